@@ -620,3 +620,249 @@ pub fn query_strategy() -> impl Strategy<Value = QuerySpec> {
 pub fn place_vertex_pub(p: &Place, n: usize) -> Option<usize> {
     place_vertex(p, n)
 }
+
+// ---------------------------------------------------------------------------------------
+// JSON-level reference of the input pipeline (used by C12 where queries are arbitrary JSON)
+
+enum Step {
+    Ok(Vec<Value>),
+    Fail,
+    Unknown,
+}
+
+fn num(v: Option<&Value>) -> Option<Option<f64>> {
+    // None = key missing, Some(None) = present but not a number
+    v.map(|x| x.as_f64())
+}
+
+fn in_range(x: f64, y: f64) -> bool {
+    let (x, y) = (x as f32, y as f32);
+    (-180.0..=180.0).contains(&x) && (-90.0..=90.0).contains(&y)
+}
+
+fn ref_grid(e: &Value) -> Step {
+    let obj = match e.as_object() {
+        Some(o) => o,
+        None => return Step::Ok(vec![e.clone()]),
+    };
+    let gs = match obj.get("grid_search") {
+        Some(g) => g,
+        None => return Step::Ok(vec![e.clone()]),
+    };
+    if serde_json::to_string(gs).map(|s| s.contains("grid_search")).unwrap_or(true) {
+        return Step::Fail;
+    }
+    let gmap = match gs.as_object() {
+        Some(m) => m,
+        None => return Step::Fail,
+    };
+    let axes: Vec<(&String, &Vec<Value>)> = gmap
+        .iter()
+        .filter_map(|(k, v)| v.as_array().map(|a| (k, a)))
+        .collect();
+    if axes.is_empty() || axes.iter().any(|(_, a)| a.is_empty()) {
+        return Step::Fail;
+    }
+    let total: usize = axes.iter().map(|(_, a)| a.len()).product();
+    if total > 4096 {
+        return Step::Unknown;
+    }
+    let mut base = obj.clone();
+    base.remove("grid_search");
+    let mut out = vec![];
+    for mut t in 0..total {
+        let mut inst = base.clone();
+        for (k, a) in &axes {
+            let c = &a[t % a.len()];
+            t /= a.len();
+            match c {
+                Value::Object(o) => {
+                    for (kk, vv) in o {
+                        inst.insert(kk.clone(), vv.clone());
+                    }
+                }
+                other => {
+                    inst.insert((*k).clone(), other.clone());
+                }
+            }
+        }
+        out.push(Value::Object(inst));
+    }
+    Step::Ok(out)
+}
+
+fn nearest_m(net: &NetCase, anchors: &[(f32, f32)], x: f64, y: f64) -> f64 {
+    let _ = net;
+    let (px, py) = (x as f32, y as f32);
+    let mut best = (f32::INFINITY, 0usize);
+    for (i, a) in anchors.iter().enumerate() {
+        let d = (a.0 - px) * (a.0 - px) + (a.1 - py) * (a.1 - py);
+        if d < best.0 {
+            best = (d, i);
+        }
+    }
+    gc_m((px as f64, py as f64), (anchors[best.1].0 as f64, anchors[best.1].1 as f64))
+}
+
+fn ref_match(e: &Value, net: &NetCase, anchors: &[(f32, f32)], tol_m: f64, edge: bool) -> Step {
+    let obj = match e.as_object() {
+        Some(o) => o,
+        None => return Step::Fail,
+    };
+    if edge {
+        if let Some(rc) = obj.get("road_classes") {
+            if serde_json::from_value::<std::collections::HashSet<u8>>(rc.clone()).is_err() {
+                return Step::Fail;
+            }
+        }
+    }
+    let (ox, oy) = match (num(obj.get("origin_x")), num(obj.get("origin_y"))) {
+        (Some(Some(x)), Some(Some(y))) => (x, y),
+        _ => return Step::Fail,
+    };
+    let dest = match (num(obj.get("destination_x")), num(obj.get("destination_y"))) {
+        (None, None) => None,
+        (Some(Some(x)), Some(Some(y))) => Some((x, y)),
+        _ => return Step::Fail,
+    };
+    let mut unknown = false;
+    for (x, y) in std::iter::once((ox, oy)).chain(dest) {
+        if !in_range(x, y) {
+            return Step::Fail;
+        }
+        let d = nearest_m(net, anchors, x, y);
+        if d > 1.1 * tol_m + 10.0 {
+            return Step::Fail;
+        }
+        if d > 0.9 * tol_m - 10.0 {
+            unknown = true;
+        }
+    }
+    if unknown {
+        return Step::Unknown;
+    }
+    let mut o = obj.clone();
+    let (ok, dk) = if edge { ("origin_edge", "destination_edge") } else { ("origin_vertex", "destination_vertex") };
+    o.insert(ok.into(), json!(0));
+    if dest.is_some() {
+        o.insert(dk.into(), json!(0));
+    }
+    Step::Ok(vec![Value::Object(o)])
+}
+
+/// how many responses must this JSON query produce under this configuration?
+/// None = the reference cannot tell (tolerance band, array-typed query, huge grid)
+pub fn expansion_json(app: &BatchAppSpec, q: &Value) -> Option<Expansion> {
+    if !q.is_object() {
+        // anything that is not an object is answered with exactly one error response
+        return Some(Expansion {
+            correct: 1,
+            family_dropped: 1,
+            sibling_mixed: false,
+        });
+    }
+    let net = app.net();
+    let vertex_anchors: Vec<(f32, f32)> = net.vertices.clone();
+    let edge_anchors: Vec<(f32, f32)> = net
+        .edges
+        .iter()
+        .map(|(a, b, _)| {
+            let (p, r) = (net.vertices[*a], net.vertices[*b]);
+            ((p.0 + r.0) / 2.0, (p.1 + r.1) / 2.0)
+        })
+        .collect();
+    let mut elems = vec![q.clone()];
+    let mut expanded = false;
+    let mut failed = 0usize;
+    let mut family_dropped = false;
+    for p in app.input_plugins() {
+        let mut next = vec![];
+        for e in elems.iter() {
+            let step = match &p {
+                InPlugin::GridSearch => ref_grid(e),
+                InPlugin::VertexRtree { tolerance } => {
+                    let tol = tolerance.map(|(t, u)| t * crate::refmodel::dist_si(crate::refmodel::DISTANCE_UNITS[u as usize % 5])).unwrap_or(f64::INFINITY);
+                    ref_match(e, &net, &vertex_anchors, tol, false)
+                }
+                InPlugin::EdgeRtree { tolerance } => {
+                    let tol = tolerance.map(|(t, u)| t * crate::refmodel::dist_si(crate::refmodel::DISTANCE_UNITS[u as usize % 5])).unwrap_or(f64::INFINITY);
+                    if edge_anchors.is_empty() {
+                        Step::Unknown
+                    } else {
+                        ref_match(e, &net, &edge_anchors, tol, true)
+                    }
+                }
+                InPlugin::LoadBalancerHaversine => match e.as_object() {
+                    None => Step::Fail,
+                    Some(obj) => {
+                        let o = (num(obj.get("origin_x")), num(obj.get("origin_y")));
+                        let d = (num(obj.get("destination_x")), num(obj.get("destination_y")));
+                        match (o, d) {
+                            ((Some(Some(ox)), Some(Some(oy))), (Some(Some(dx)), Some(Some(dy)))) => {
+                                if in_range(ox, oy) && in_range(dx, dy) {
+                                    Step::Ok(vec![e.clone()])
+                                } else {
+                                    Step::Fail
+                                }
+                            }
+                            _ => Step::Fail,
+                        }
+                    }
+                },
+                InPlugin::LoadBalancerCustom { column } => match e.get(column).and_then(|v| v.as_f64()) {
+                    Some(_) if e.is_object() => Step::Ok(vec![e.clone()]),
+                    _ => Step::Fail,
+                },
+                InPlugin::Inject { key, value, .. } => match e.as_object() {
+                    None => Step::Fail,
+                    Some(obj) => {
+                        let mut o = obj.clone();
+                        o.insert(key.clone(), value.clone());
+                        Step::Ok(vec![Value::Object(o)])
+                    }
+                },
+            };
+            match step {
+                Step::Unknown => return None,
+                Step::Fail => {
+                    if expanded {
+                        failed += 1;
+                        family_dropped = true;
+                    } else {
+                        return Some(Expansion {
+                            correct: 1,
+                            family_dropped: 1,
+                            sibling_mixed: false,
+                        });
+                    }
+                }
+                Step::Ok(v) => {
+                    if v.len() != 1 || matches!(p, InPlugin::GridSearch) && e.get("grid_search").is_some() {
+                        expanded = true;
+                    }
+                    // the pipeline flattens arrays produced by plugins; array-valued elements
+                    // cannot come out of the reference plugins
+                    next.extend(v);
+                }
+            }
+        }
+        elems = next;
+        if elems.is_empty() {
+            break;
+        }
+    }
+    // elements that are not objects end in one invariant error for the whole query
+    if elems.iter().any(|e| !e.is_object()) {
+        return Some(Expansion {
+            correct: 1,
+            family_dropped: 1,
+            sibling_mixed: false,
+        });
+    }
+    let correct = elems.len() + failed;
+    Some(Expansion {
+        correct,
+        family_dropped: if family_dropped { 1 } else { correct },
+        sibling_mixed: family_dropped && !elems.is_empty(),
+    })
+}
